@@ -84,6 +84,7 @@ class LoopSpec:
     invariants: list = field(default_factory=list)  # [(label, expr)]
     unroll: bool = False
     decreases: str | None = None
+    init_hints: list = field(default_factory=list)  # [(label, expr)] proved before the loop is entered
     end_hints: list = field(default_factory=list)  # [(label, expr)] proved at the end of the body, before the invariant
     body_hints: list = field(default_factory=list)  # [(label, expr)] proved at the top of the body, then usable
 
